@@ -54,7 +54,9 @@ func init() {
 		return x.finish(st, fr, c, VScalar{v})
 	})
 	reg(ginCtx+".QueryMap", "gin query map: arbitrary client data", func(x *Exec, st *State, fr *Frame, c *callCtx) bool {
-		return x.finish(st, fr, c, x.symbolic(st, c.ret.Type(), "gin.querymap"))
+		v := x.symbolic(st, c.ret.Type(), "gin.querymap")
+		st.rec = append(append([]recordedCall(nil), st.rec...), recordedCall{Name: "querymap", Args: []TV{{nil, c.ret.Type()}}, Results: []Value{v}})
+		return x.finish(st, fr, c, v)
 	})
 	reg(ginCtx+".Query", "gin query value: arbitrary client string", func(x *Exec, st *State, fr *Frame, c *callCtx) bool {
 		return x.finish(st, fr, c, x.symbolic(st, c.ret.Type(), "gin.query"))
